@@ -764,3 +764,124 @@ func ruleENG15(c *Ctx) {
 	}
 	c.Check(okStore, "KnowledgeBase.RetractRule retracts exactly the named rule", p.Pos(rr.Pos()), "only store: Retracted=true under entry.RuleName == name", fmt.Sprintf("RetractRule does more or less than retracting the entry whose name equals its parameter (stores=%d otherWrites=%v)", len(stores), other))
 }
+
+func init() {
+	register("TRV-1", "traversals of a node's children and of the registries are exhaustive (no early exit except by error or from a search)", 30, ruleTRV1)
+}
+
+// trvSearchLoops: loops that are searches by design (they return or stop at the first hit); one symbol, one reason.
+var trvSearchLoops = map[string]string{
+	"(*ast.DataContext).IsRetracted / retracted":                   "membership test: returns true at the first match",
+	"(*ast.WorkingMemory).Reset / variableSnapshotMap":            "looks for the variable whose text equals the name and forwards to ResetVariable (INV-6 decides the match)",
+	"(*ast.KnowledgeBase).IsRuleRetracted / RuleEntries":           "looks the named rule up and returns its flag",
+	"(*engine.GruleEngine).ExecuteWithContext / RuleEntries":       "the rule loop: ENG-4 and ENG-13 decide its exits (context error, condition error under the flag)",
+	"(*engine.GruleEngine).FetchMatchingRules / RuleEntries":       "the rule loop: ENG-4 and ENG-13 decide its exits",
+}
+
+// TRV-1: a loop that ranges over a field of a knowledge-base resident object (children of a node, registry and index maps,
+// rule entries, listeners) and is left before the end silently drops the rest: arguments not evaluated, actions not run,
+// nodes not reset / cloned / catalogued, listeners not told. Exits by returning an error are how failures propagate.
+func ruleTRV1(c *Ctx) {
+	p := c.P
+	n := 0
+	for _, fn := range p.ModuleFuncs() {
+		if fn.Pkg == nil || strings.HasSuffix(p.Pos(fn.Pos()), "_test.go") {
+			continue
+		}
+		pk := fnPkgShort(fn)
+		if pk != "ast" && pk != "engine" && pk != "pkg" && pk != "model" && pk != "builder" {
+			continue
+		}
+		if generatedExempt(fn) {
+			continue
+		}
+		if fn.Signature.Recv() != nil {
+			if nt, ok := derefType(fn.Signature.Recv().Type()).(*types.Named); ok && (strings.HasSuffix(nt.Obj().Name(), "ResourceBundle") || strings.HasSuffix(nt.Obj().Name(), "Resource")) {
+				continue // byte sources: which files a bundle picks up is outside the properties
+			}
+		}
+		loops := naturalLoops(fn)
+		for _, l := range loops {
+			x := rangeOperand(l)
+			if x == nil {
+				continue
+			}
+			f, _ := fieldLoad(unspill(x))
+			if f == nil {
+				// a lookup in a field map (index[variable]) also counts
+				if lk, ok := unspill(x).(*ssa.Lookup); ok {
+					f, _ = fieldLoad(lk.X)
+				} else if ex, ok := unspill(x).(*ssa.Extract); ok {
+					if lk, ok := ex.Tuple.(*ssa.Lookup); ok {
+						f, _ = fieldLoad(lk.X)
+					}
+				}
+			}
+			if f == nil {
+				continue
+			}
+			owner := p.fieldOwner(f)
+			if strings.HasPrefix(owner, "?") {
+				continue
+			}
+			n++
+			key := fmt.Sprintf("%s / %s", fnName(fn), f.Name())
+			early := ""
+			for _, ex := range l.Exits() {
+				eb := ex[0].(*ssa.BasicBlock)
+				si := ex[1].(int)
+				if eb == l.Header {
+					continue
+				}
+				if onlyErrorReturns(eb.Succs[si], loops) {
+					continue
+				}
+				if onlyFalseReturns(eb.Succs[si]) {
+					continue // a comparison (Equals / IsIdentical): the first difference decides
+				}
+				early = eb.Comment
+			}
+			if early == "" {
+				c.OK(key+" traversed to the end", p.Pos(fn.Pos()), "exits: exhaustion or error return")
+				continue
+			}
+			if why, ok := trvSearchLoops[key]; ok {
+				c.OK(key+" traversed to the end", p.Pos(fn.Pos()), "search loop: "+why)
+				continue
+			}
+			c.Fail(key+" traversed to the end", p.Pos(fn.Pos()), "the loop over "+owner+" can be left early without an error (from block "+early+"): the remaining elements are silently skipped")
+		}
+	}
+	c.Notes = append(c.Notes, fmt.Sprintf("TRV-1 loops over fields of module objects: %d", n))
+}
+
+// onlyFalseReturns: every path from b ends in a return whose (only) result is the constant false, without passing
+// another branch back into a loop.
+func onlyFalseReturns(b *ssa.BasicBlock) bool {
+	seen := map[*ssa.BasicBlock]bool{}
+	var walk func(b *ssa.BasicBlock, d int) bool
+	walk = func(b *ssa.BasicBlock, d int) bool {
+		if seen[b] || d > 6 {
+			return false
+		}
+		seen[b] = true
+		last := b.Instrs[len(b.Instrs)-1]
+		if r, ok := last.(*ssa.Return); ok {
+			if len(r.Results) != 1 {
+				return false
+			}
+			bv, isb := constBool(r.Results[0])
+			return isb && !bv
+		}
+		if len(b.Succs) == 0 {
+			return false
+		}
+		for _, s := range b.Succs {
+			if !walk(s, d+1) {
+				return false
+			}
+		}
+		return true
+	}
+	return walk(b, 0)
+}
